@@ -41,7 +41,13 @@ from props.interp_common import EPS
 
 MODULE = "DfolsVerif.Properties.C11"
 BUILD_TARGETS = ["DfolsVerif.Driver.InterpDrv"]
+def pre_build(ctx):
+    import gen_snapshots
+    ctx.cov["snapshot_assignments_in_repo"] = gen_snapshots.regenerate(ctx)
+
+
 THEOREMS = [
+    "Dfols.C11.C11_src_snapshots",
     "Dfols.C11.C11_labels",
     "Dfols.C11.interpolate_snapshot",
     "Dfols.C11.savePoint_carries",
@@ -116,11 +122,13 @@ class Problem:
         self.use_old_rk = bool(rng.random() < 0.6)
         self.increase_npt = bool(rng.random() < 0.3)
         self.noise_seed = int(rng.integers(0, 2 ** 31))
+        # residuals in small / large units (a Jacobian whose singular values are far from 1)
+        self.runit = float(10 ** rng.uniform(-9, 4)) if (rng.random() < 0.25 and self.noise == 0.0) else 1.0
 
     def describe(self):
         return {"n": self.n, "m": self.m, "kind": self.kind, "bounds": self.bounds is not None, "scaling": self.scaling,
                 "npt": self.npt, "maxfun": self.maxfun, "rhoend": self.rhoend, "restart": self.restart, "nsamples": self.nsamp,
-                "noise": self.noise, "use_old_rk": self.use_old_rk, "increase_npt": self.increase_npt}
+                "noise": self.noise, "use_old_rk": self.use_old_rk, "increase_npt": self.increase_npt, "residual_unit": self.runit}
 
     def resid_exact(self, x):
         r = self.A.dot(x) - self.b
@@ -128,7 +136,7 @@ class Problem:
             r = r + 0.3 * np.sin(self.B.dot(x))
         elif self.kind == "quad":
             r = r + 0.1 * self.B.dot(x * x)
-        return r
+        return r * self.runit if self.runit != 1.0 else r
 
 
 def run_problem(dfols, prob, capture=None):
@@ -153,6 +161,8 @@ def run_problem(dfols, prob, capture=None):
         up["restarts.increase_npt"] = prob.increase_npt
     elif prob.nsamp > 1:
         up["restarts.use_restarts"] = False
+    if prob.runit != 1.0:
+        up["model.abs_tol"] = 1e-20 * prob.runit ** 2      # keep the 'sufficiently small' exit in proportion to the units
     kw = dict(npt=prob.npt, maxfun=prob.maxfun, rhoend=prob.rhoend, user_params=up, do_logging=False,
               scaling_within_bounds=prob.scaling, objfun_has_noise=prob.nsamp > 1)
     if prob.bounds is not None:
@@ -289,7 +299,7 @@ def check_solution(prob, soln, calls):
         info["what"] = what
         return "fail:" + sig, info
     if prob.kind == "linear" and prob.noise == 0.0:
-        errA = np.abs(J - prob.A)
+        errA = np.abs(J - prob.A * prob.runit)
         nA = float(np.max(errA / res["unit"]))
         info["norm_err_vs_A"] = nA
         if nA > tol:
